@@ -109,7 +109,9 @@ type Path struct {
 	BlockEv []int
 	// AllBlocks lists every block entered, those of callees expanded in place included.
 	AllBlocks []*ssa.BasicBlock
-	End       Kind // KReturn, KPanic or KLoopBack
+	// AllBlockEv[i] is the number of events emitted before AllBlocks[i] was entered.
+	AllBlockEv []int
+	End        Kind // KReturn, KPanic or KLoopBack
 }
 
 // Config tunes enumeration.
@@ -173,6 +175,7 @@ type state struct {
 	events    []Event
 	blocks    []*ssa.BasicBlock
 	allBlocks []*ssa.BasicBlock
+	allBlkEv  []int
 	blockEv   []int
 	fr        *frame
 }
@@ -188,6 +191,7 @@ func (st *state) clone() *state {
 		events:    append([]Event(nil), st.events...),
 		blocks:    append([]*ssa.BasicBlock(nil), st.blocks...),
 		allBlocks: append([]*ssa.BasicBlock(nil), st.allBlocks...),
+		allBlkEv:  append([]int(nil), st.allBlkEv...),
 		blockEv:   append([]int(nil), st.blockEv...),
 	}
 	for k, v := range st.phi {
@@ -344,7 +348,7 @@ func (en *enum) finish(st *state, end Kind) {
 		en.err = &ErrTooManyPaths{en.top, en.stats.Paths}
 		return
 	}
-	en.visit(&Path{Fn: en.top, Start: en.start, Events: st.events, Blocks: st.blocks, BlockEv: st.blockEv, AllBlocks: st.allBlocks, End: end})
+	en.visit(&Path{Fn: en.top, Start: en.start, Events: st.events, Blocks: st.blocks, BlockEv: st.blockEv, AllBlocks: st.allBlocks, AllBlockEv: st.allBlkEv, End: end})
 }
 
 // block enters b coming from pred (nil at a segment start).
@@ -374,6 +378,7 @@ func (en *enum) block(st *state, b *ssa.BasicBlock, pred *ssa.BasicBlock) {
 	}
 	fr.seen[b] = true
 	st.allBlocks = append(st.allBlocks, b)
+	st.allBlkEv = append(st.allBlkEv, len(st.events))
 	if fr.parent == nil {
 		st.blocks = append(st.blocks, b)
 		st.blockEv = append(st.blockEv, len(st.events))
@@ -920,7 +925,17 @@ func (st *state) resolveAddr(v ssa.Value) ssa.Value {
 var KnownNamed map[string]bool
 
 // ConstKey renders a comparable constant (through MakeInterface) or "".
+// SentinelGlobal, when set, tells whether a package-level variable is an error
+// sentinel: of interface type, assigned by its initialiser only. A load of one
+// compares like a constant (and is not nil).
+var SentinelGlobal func(g *ssa.Global) bool
+
 func ConstKey(v ssa.Value) string {
+	if u, ok := v.(*ssa.UnOp); ok && u.Op == token.MUL && SentinelGlobal != nil {
+		if g, ok := u.X.(*ssa.Global); ok && SentinelGlobal(g) {
+			return "sentinel:" + g.String()
+		}
+	}
 	if mi, ok := v.(*ssa.MakeInterface); ok {
 		v = mi.X
 	}
